@@ -192,6 +192,14 @@ func sameLenBase(a, b ssa.Value) bool {
 			return true
 		}
 	}
+	// element loads s[i] of the same slice and index
+	if ok1 && ok2 && ua.Op == token.MUL && ub.Op == token.MUL {
+		ia, ok1 := ua.X.(*ssa.IndexAddr)
+		ib, ok2 := ub.X.(*ssa.IndexAddr)
+		if ok1 && ok2 && ia.Index == ib.Index && sameLenBase(ia.X, ib.X) {
+			return true
+		}
+	}
 	// x.Field of the same struct value
 	f1, ok1 := a.(*ssa.Field)
 	f2, ok2 := b.(*ssa.Field)
@@ -437,41 +445,117 @@ func lenValueOf(v ssa.Value, base ssa.Value) bool {
 
 // nonNegative: the index value cannot be negative: constants >= 0, len(),
 // loop counters starting at a non-negative value and only incremented, range
-// indices.
+// indices (go/ssa lowers `for i := range s` to phi(-1, i+1)+1).
 func nonNegative(v ssa.Value, depth int, seen map[ssa.Value]bool) bool {
-	if depth > 6 || seen[v] {
-		return seen[v]
-	}
-	seen[v] = true
-	if k, ok := constInt64(v); ok {
-		return k >= 0
-	}
-	if _, ok := lenOf(v); ok {
+	if lb, ok := lowerBound(v, 0, map[ssa.Value]bool{}); ok && lb >= 0 {
 		return true
+	}
+	// induction over the loop iterations: a phi met again is assumed
+	// non-negative; every operation on the cycle must preserve that.
+	if depth > 8 {
+		return false
+	}
+	if known, ok := seen[v]; ok {
+		return known
 	}
 	switch x := v.(type) {
 	case *ssa.Phi:
+		seen[v] = true
 		for _, e := range x.Edges {
 			if !nonNegative(e, depth+1, seen) {
+				seen[v] = false
 				return false
 			}
 		}
 		return true
 	case *ssa.BinOp:
-		if x.Op == token.ADD {
+		switch x.Op {
+		case token.ADD, token.MUL, token.QUO:
 			return nonNegative(x.X, depth+1, seen) && nonNegative(x.Y, depth+1, seen)
-		}
-		if x.Op == token.MUL || x.Op == token.QUO || x.Op == token.REM {
-			return nonNegative(x.X, depth+1, seen) && nonNegative(x.Y, depth+1, seen)
-		}
-	case *ssa.Extract:
-		if _, ok := x.Tuple.(*ssa.Next); ok && x.Index == 1 {
-			return true
+		case token.REM:
+			return nonNegative(x.X, depth+1, seen)
 		}
 	case *ssa.Convert:
 		return nonNegative(x.X, depth+1, seen)
 	}
 	return false
+}
+
+// lowerBound: a constant the value is never below. Loop-carried edges of a phi
+// that only add a non-negative constant to the phi itself are monotone and are
+// skipped.
+func lowerBound(v ssa.Value, depth int, onPath map[ssa.Value]bool) (int64, bool) {
+	if depth > 8 {
+		return 0, false
+	}
+	if k, ok := constInt64(v); ok {
+		return k, true
+	}
+	if _, ok := lenOf(v); ok {
+		return 0, true
+	}
+	switch x := v.(type) {
+	case *ssa.Phi:
+		if onPath[x] {
+			return 0, false
+		}
+		onPath[x] = true
+		defer delete(onPath, x)
+		have := false
+		var lb int64
+		for _, e := range x.Edges {
+			if base, off := idxPlus(e); base == ssa.Value(x) {
+				if off >= 0 {
+					continue // monotone self edge
+				}
+				return 0, false
+			}
+			l, ok := lowerBound(e, depth+1, onPath)
+			if !ok {
+				return 0, false
+			}
+			if !have || l < lb {
+				lb, have = l, true
+			}
+		}
+		return lb, have
+	case *ssa.BinOp:
+		switch x.Op {
+		case token.ADD:
+			a, ok1 := lowerBound(x.X, depth+1, onPath)
+			b, ok2 := lowerBound(x.Y, depth+1, onPath)
+			if ok1 && ok2 {
+				return a + b, true
+			}
+		case token.SUB:
+			if k, ok := constInt64(x.Y); ok {
+				if a, ok := lowerBound(x.X, depth+1, onPath); ok {
+					return a - k, true
+				}
+			}
+		case token.MUL, token.QUO:
+			a, ok1 := lowerBound(x.X, depth+1, onPath)
+			b, ok2 := lowerBound(x.Y, depth+1, onPath)
+			if ok1 && ok2 && a >= 0 && b >= 0 {
+				if x.Op == token.MUL {
+					return a * b, true
+				}
+				return 0, true
+			}
+		case token.REM:
+			a, ok1 := lowerBound(x.X, depth+1, onPath)
+			if ok1 && a >= 0 {
+				return 0, true
+			}
+		}
+	case *ssa.Extract:
+		if _, ok := x.Tuple.(*ssa.Next); ok && x.Index == 1 {
+			return 0, true
+		}
+	case *ssa.Convert:
+		return lowerBound(x.X, depth+1, onPath)
+	}
+	return 0, false
 }
 
 // varIndexSite: an index expression whose index is not a constant / len-k.
@@ -483,125 +567,101 @@ type varIndexSite struct {
 	Why    string
 	Pos    token.Pos
 	Slice  bool
+	Pair   bool // proven under the invariant "a mapping's children come in key/value pairs"
+	LowOK  bool
+	UpOK   bool
 }
 
-// upperBounded: dominating conditions give idx+off < len(base) (or <= len for slices).
-func upperBounded(blk *ssa.BasicBlock, base ssa.Value, idx ssa.Value, off int64, allowEq bool) bool {
-	ok := false
-	dominatingConds(blk, func(cond ssa.Value, taken bool, at *ssa.BasicBlock) {
-		b, isB := cond.(*ssa.BinOp)
-		if !isB {
-			return
-		}
-		op, x, y := b.Op, b.X, b.Y
-		if !taken {
-			switch op {
-			case token.LSS:
-				op = token.GEQ
-			case token.LEQ:
-				op = token.GTR
-			case token.GTR:
-				op = token.LEQ
-			case token.GEQ:
-				op = token.LSS
-			case token.EQL:
-				op = token.NEQ
-			case token.NEQ:
-				op = token.EQL
-			default:
-				return
-			}
-		}
-		// normalise to  L < R  or  L <= R
-		var l, r ssa.Value
-		strict := false
-		switch op {
-		case token.LSS:
-			l, r, strict = x, y, true
-		case token.LEQ:
-			l, r = x, y
-		case token.GTR:
-			l, r, strict = y, x, true
-		case token.GEQ:
-			l, r = y, x
-		default:
-			return
-		}
-		li, lo := idxPlus(l)
-		ri, ro := idxPlus(r)
-		if li != idx || !lenValueOf(ri, base) {
-			return
-		}
-		// li + lo  <(=)  len + ro   =>  li + off < len  iff  off <= lo - ro - (strict?0:1)
-		slack := lo - ro
-		if !strict {
-			slack--
-		}
-		need := off
-		if allowEq {
-			need = off - 1
-		}
-		if need <= slack {
-			ok = true
-		}
-	})
-	return ok
-}
-
-func varIndexSites(fn *ssa.Function) []*varIndexSite {
-	var out []*varIndexSite
-	add := func(ins ssa.Instruction, base, idx ssa.Value, isSlice bool) {
-		if idx == nil {
-			return
-		}
-		if _, ok := constInt64(idx); ok {
-			return
-		}
-		if x, _, ok := lenMinus(idx); ok && sameLenBase(x, base) {
-			return
-		}
-		i, off := idxPlus(idx)
-		s := &varIndexSite{Instr: ins, Base: base, Index: idx, Pos: ins.Pos(), Slice: isSlice}
-		up := upperBounded(ins.Block(), base, i, off, isSlice)
-		lowOK := nonNegative(idx, 0, map[ssa.Value]bool{})
-		// range-over-slice index: Extract #0 of Next? (go/ssa lowers slice ranges to counters)
-		switch {
-		case up && lowOK:
-			s.Proven, s.Why = true, "0 <= index and a dominating comparison bounds it by len"
-		case up:
-			s.Why = "upper bound established, sign of the index not"
-		case lowOK:
-			s.Why = "index is non-negative, no dominating comparison with len"
-		default:
-			s.Why = "no bound established"
-		}
-		out = append(out, s)
+// isNodeSlice: []*CandidateNode, []*yaml.Node and the like.
+func isNodeSlice(t types.Type) bool {
+	sl, ok := t.Underlying().(*types.Slice)
+	if !ok {
+		return false
 	}
+	p, ok := sl.Elem().Underlying().(*types.Pointer)
+	if !ok {
+		return false
+	}
+	n, ok := p.Elem().(*types.Named)
+	if !ok {
+		return false
+	}
+	switch n.Obj().Name() {
+	case "CandidateNode", "Node":
+		return true
+	}
+	return false
+}
+
+// stepsByTwoFromEven: v = phi(even constant >= 0, v+2).
+func stepsByTwoFromEven(v ssa.Value) bool {
+	phi, ok := v.(*ssa.Phi)
+	if !ok {
+		return false
+	}
+	entries := 0
+	for _, e := range phi.Edges {
+		if k, ok := constInt64(e); ok {
+			if k < 0 || k%2 != 0 {
+				return false
+			}
+			entries++
+			continue
+		}
+		if b, off := idxPlus(e); b == ssa.Value(phi) && off == 2 {
+			continue
+		}
+		return false
+	}
+	return entries > 0
+}
+
+// madeWithLen: the length operands of the make() calls that produce base in
+// this function: base itself, or — for a field — every store to that field.
+func madeWithLen(fn *ssa.Function, base ssa.Value) []ssa.Value {
+	if m, ok := base.(*ssa.MakeSlice); ok {
+		return []ssa.Value{m.Len}
+	}
+	u, ok := base.(*ssa.UnOp)
+	if !ok || u.Op != token.MUL {
+		return nil
+	}
+	var out []ssa.Value
+	bad := false
 	for _, b := range fn.Blocks {
 		for _, ins := range b.Instrs {
-			switch x := ins.(type) {
-			case *ssa.IndexAddr:
-				if _, isArr := derefType(x.X.Type()).Underlying().(*types.Array); isArr {
-					continue
-				}
-				add(x, x.X, x.Index, false)
-			case *ssa.Index:
-				if _, isArr := x.X.Type().Underlying().(*types.Array); isArr {
-					continue
-				}
-				add(x, x.X, x.Index, false)
-			case *ssa.Lookup:
-				if _, isMap := x.X.Type().Underlying().(*types.Map); !isMap {
-					add(x, x.X, x.Index, false)
-				}
-			case *ssa.Slice:
-				if _, isArr := derefType(x.X.Type()).Underlying().(*types.Array); isArr {
-					continue
-				}
-				add(x, x.X, x.Low, true)
-				add(x, x.X, x.High, true)
+			st, ok := ins.(*ssa.Store)
+			if !ok {
+				continue
+			}
+			same := st.Addr == u.X
+			if !same {
+				fa, ok1 := st.Addr.(*ssa.FieldAddr)
+				fb, ok2 := u.X.(*ssa.FieldAddr)
+				same = ok1 && ok2 && fa.Field == fb.Field && sameLenBase(fa.X, fb.X)
+			}
+			if !same {
+				continue
+			}
+			if m, ok := st.Val.(*ssa.MakeSlice); ok {
+				out = append(out, m.Len)
+			} else {
+				bad = true
 			}
 		}
 	}
+	if bad {
+		return nil
+	}
 	return out
+}
+
+// sameLength: two values that denote the same length (same value, or len() of the same slice).
+func sameLength(a, b ssa.Value) bool {
+	if a == b {
+		return true
+	}
+	x, ok1 := lenOf(a)
+	y, ok2 := lenOf(b)
+	return ok1 && ok2 && sameLenBase(x, y)
 }
